@@ -31,6 +31,8 @@ type (
 	NStr     string
 	NBool    bool
 	NStrs    []string
+	NPtrInt  *int
+	NPtrStr  *NStr
 	NInts    []int
 	NMap     map[string]int
 	NAnyMap  map[string]any
@@ -204,7 +206,7 @@ var Pool = []PoolEntry{
 	{"NInt", reflect.TypeFor[NInt](), "scalar"}, {"NInt8", reflect.TypeFor[NInt8](), "scalar"}, {"NUint16", reflect.TypeFor[NUint16](), "scalar"},
 	{"NUint64", reflect.TypeFor[NUint64](), "scalar"}, {"NFloat32", reflect.TypeFor[NFloat32](), "scalar"}, {"NFloat64", reflect.TypeFor[NFloat64](), "scalar"},
 	{"NStr", reflect.TypeFor[NStr](), "scalar"}, {"NBool", reflect.TypeFor[NBool](), "scalar"},
-	{"NStrs", reflect.TypeFor[NStrs](), "container"}, {"NInts", reflect.TypeFor[NInts](), "container"}, {"NMap", reflect.TypeFor[NMap](), "container"}, {"NAnyMap", reflect.TypeFor[NAnyMap](), "container"},
+	{"NStrs", reflect.TypeFor[NStrs](), "container"}, {"NPtrInt", reflect.TypeFor[NPtrInt](), "container"}, {"NPtrStr", reflect.TypeFor[NPtrStr](), "container"}, {"NInts", reflect.TypeFor[NInts](), "container"}, {"NMap", reflect.TypeFor[NMap](), "container"}, {"NAnyMap", reflect.TypeFor[NAnyMap](), "container"},
 	{"Inner", reflect.TypeFor[Inner](), "struct"}, {"Base", reflect.TypeFor[Base](), "struct"}, {"Shadow", reflect.TypeFor[Shadow](), "struct"},
 	{"PtrEmbed", reflect.TypeFor[PtrEmbed](), "struct"}, {"Deep", reflect.TypeFor[Deep](), "struct"}, {"WithUnexp", reflect.TypeFor[WithUnexp](), "struct"},
 	{"Mixed", reflect.TypeFor[Mixed](), "struct"}, {"Described", reflect.TypeFor[Described](), "struct"},
